@@ -3,6 +3,7 @@ package props
 import (
 	"encoding/json"
 	"fmt"
+	"path/filepath"
 	"strings"
 	"testing"
 
@@ -44,7 +45,17 @@ func c15Judge(env *hx.Env, files hx.Files, m c15Meta) (hx.Verdict, *cliRun) {
 			allowed[p] = true
 		}
 	}
+	// a path named through a symbolic link to its directory is the same file under its real name
+	for _, abs := range []string{r.OutAbs, r.LogAbs} {
+		if abs == "" || !allowed[r.rel(abs)] {
+			continue
+		}
+		if dir, err := filepath.EvalSymlinks(filepath.Dir(abs)); err == nil {
+			allowed[r.rel(filepath.Join(dir, filepath.Base(abs)))] = true
+		}
+	}
 	if sc.OutKind == "is-input" || sc.OutKind == "is-input-alias" {
+		delete(allowed, sc.Input)
 		delete(allowed, r.rel(r.OutAbs)) // the setup file is never modified, whatever the flags say
 	}
 	created, deleted, modified := r.Before.Diff(r.After)
